@@ -750,7 +750,16 @@ func c06R6(c *Ctx, p *Prog) {
 			return
 		}
 		fromTT := false
-		for v := range backSlice(returnedValue(ret, 0), sliceOpts{}) {
+		// (through pure helpers: `if v, ok := ttCutoff(e.Type(), e.Value(ply), alpha, beta); ok { return v }`)
+		for v := range backSlice(returnedValue(ret, 0), sliceOpts{ThroughCalls: true, Stop: func(x ssa.Value) bool {
+			if call, ok := x.(*ssa.Call); ok {
+				switch objName(calleeObj(call)) {
+				case "search.(*Search).alphaBeta", "search.(*Search).quiescence":
+					return true // a searched value, not a table value
+				}
+			}
+			return false
+		}}) {
 			if isCallValueTo(v, "transp.(*entry).Value") {
 				fromTT = true
 			}
